@@ -1,7 +1,7 @@
 (* C15 - focus: a common translation that puts the smallest observed coordinate of every axis at 0; header
    dimensions are the observed extents rounded up; confidences and the missing pattern are untouched. *)
 From Coq Require Import Reals ZArith List Bool Lia Lra.
-Require Import Result Num C15_Spatial C15_Real C15_Lemmas C15_Flip C15_Matmul.
+Require Import Result Num C15_Spatial C15_Real C15_Lemmas C15_Flip C15_Matmul C15_Obs.
 Import ListNotations.
 Local Open Scope R_scope.
 
@@ -12,24 +12,66 @@ Proof. intros H. assert (Hz : z = (1 - up (- x))%Z) by (unfold R_ceil in H; cong
 (* ---------- structure of a successful focus ---------- *)
 Definition nonzero (m : R) : bool := negb (Reqb m 0).
 
-Lemma focus_unfold D (b b' : rframes) dims : focus R_ops R_ceil D b = Ok (b', dims) ->
+(* on a well-formed body every axis has an observed value as soon as one has *)
+Lemma axis_values D (b : rframes) : wf_body D b -> all_missing (all_points R_ops b) = false ->
+  exists mins maxs : list R,
+    Forall2 (fun d m => lmin R_ops (obs_axis R_ops d (all_points R_ops b)) = Some m) (seq 0 D) mins /\
+    Forall2 (fun d m => lmax R_ops (obs_axis R_ops d (all_points R_ops b)) = Some m) (seq 0 D) maxs /\
+    map (fun d => lmin R_ops (obs_axis R_ops d (all_points R_ops b))) (seq 0 D) = map Some mins /\
+    map (fun d => lmax R_ops (obs_axis R_ops d (all_points R_ops b))) (seq 0 D) = map Some maxs.
+Proof. intros Hwf Hm. pose proof (all3_all_points _ _ Hwf) as Hp.
+  exists (map (fun d => val R_ops (lmin R_ops (obs_axis R_ops d (all_points R_ops b)))) (seq 0 D)),
+         (map (fun d => val R_ops (lmax R_ops (obs_axis R_ops d (all_points R_ops b)))) (seq 0 D)).
+  split; [|split; [|split]].
+  - apply Forall2_map_r. intros d Hd. apply in_seq in Hd. destruct (lmin_some D _ d Hp) as [m ->]; [lia | exact Hm | reflexivity].
+  - apply Forall2_map_r. intros d Hd. apply in_seq in Hd. destruct (lmax_some D _ d Hp) as [m ->]; [lia | exact Hm | reflexivity].
+  - rewrite map_map. apply map_ext_in. intros d Hd. apply in_seq in Hd. destruct (lmin_some D _ d Hp) as [m ->]; [lia | exact Hm | reflexivity].
+  - rewrite map_map. apply map_ext_in. intros d Hd. apply in_seq in Hd. destruct (lmax_some D _ d Hp) as [m ->]; [lia | exact Hm | reflexivity]. Qed.
+Lemma zipw_osub_some (maxs mins : list R) : zipw (osub R_ops) (map Some maxs) (map Some mins) = map Some (zipw Rminus maxs mins).
+Proof. revert mins; induction maxs as [|x maxs IH]; intros [|m mins]; cbn [map zipw]; try reflexivity. rewrite IH. reflexivity. Qed.
+Lemma existsb_nonzero_some (mins : list R) :
+  existsb (fun m : option R => match m with Some v => negb (Reqb v 0) | None => true end) (map Some mins) = existsb nonzero mins.
+Proof. induction mins as [|m mins IH]; cbn [map existsb]; [reflexivity | now rewrite IH]. Qed.
+Lemma map_val_some (mins : list R) : map (val R_ops) (map Some mins) = mins.
+Proof. rewrite map_map. cbn [val]. apply map_id. Qed.
+
+(* focus on a well-formed body, with the per-axis minima / maxima made explicit *)
+Lemma focus_as_values D (b : rframes) (mins maxs : list R) :
+  map (fun d => lmin R_ops (obs_axis R_ops d (all_points R_ops b))) (seq 0 D) = map Some mins ->
+  map (fun d => lmax R_ops (obs_axis R_ops d (all_points R_ops b))) (seq 0 D) = map Some maxs ->
+  focus R_ops R_ceil D b =
+  let b' := if existsb nonzero mins then map3 R_ops (shift_point R_ops mins) b else b in
+  match zipw Rminus maxs mins with
+  | w :: h :: rest =>
+      do wz <- need (R_ceil w) Value; do hz <- need (R_ceil h) Value;
+      do dz <- match rest with [] => Ok 0%Z | dpt :: _ => need (R_ceil dpt) Value end;
+      Ok (b', (wz, hz, dz))
+  | _ => Err Type_
+  end.
+Proof. intros Hmin Hmax. unfold focus. rewrite Hmin, Hmax. rops.
+  rewrite zipw_osub_some, existsb_nonzero_some, map_val_some.
+  destruct (zipw Rminus maxs mins) as [|w [|h rest]]; cbn [map]; try reflexivity.
+  cbn [need rbind]. destruct (R_ceil w); cbn [need rbind]; [|reflexivity]. destruct (R_ceil h); cbn [need rbind]; [|reflexivity].
+  destruct rest as [|dpt rest]; cbn [map need rbind]; reflexivity. Qed.
+(* success needs an observed value on the first axis *)
+Lemma focus_ok_observed D (b b' : rframes) dims : focus R_ops R_ceil D b = Ok (b', dims) ->
+  (2 <= D)%nat /\ exists m, lmin R_ops (obs_axis R_ops 0 (all_points R_ops b)) = Some m.
+Proof. unfold focus. intros H. destruct D as [|[|n]]; cbn [seq map zipw] in H; try discriminate.
+  split; [lia|]. destruct (lmin R_ops (obs_axis R_ops 0 (all_points R_ops b))) as [m|]; [eauto|].
+  destruct (lmax R_ops (obs_axis R_ops 0 (all_points R_ops b))); cbn [osub need rbind] in H; discriminate. Qed.
+
+Lemma focus_unfold D (b b' : rframes) dims : wf_body D b -> focus R_ops R_ceil D b = Ok (b', dims) ->
   exists mins maxs : list R,
     Forall2 (fun d m => lmin R_ops (obs_axis R_ops d (all_points R_ops b)) = Some m) (seq 0 D) mins /\
     Forall2 (fun d m => lmax R_ops (obs_axis R_ops d (all_points R_ops b)) = Some m) (seq 0 D) maxs /\
     b' = (if existsb nonzero mins then map3 R_ops (shift_point R_ops mins) b else b) /\
     (2 <= D)%nat /\ (D = 2%nat -> snd dims = 0%Z) /\
     forall d mn mx, (d < 3)%nat -> nth_error mins d = Some mn -> nth_error maxs d = Some mx -> is_ceil (dim_of dims d) (mx - mn).
-Proof. unfold focus. intros H.
-  destruct (rmapM _ (seq 0 D)) as [mins|e] eqn:Emin; cbn [rbind] in H; [|discriminate].
-  destruct (rmapM _ (seq 0 D)) as [maxs|e] eqn:Emax in H; cbn [rbind] in H; [|discriminate].
-  exists mins, maxs.
-  assert (Hmin : Forall2 (fun d m => lmin R_ops (obs_axis R_ops d (all_points R_ops b)) = Some m) (seq 0 D) mins).
-  { apply rmapM_ok in Emin. eapply Forall2_weaken; [|exact Emin]. intros d m Hd. cbn beta in Hd.
-    destruct (lmin R_ops _); cbn [need] in Hd; [now injection Hd as -> | discriminate]. }
-  assert (Hmax : Forall2 (fun d m => lmax R_ops (obs_axis R_ops d (all_points R_ops b)) = Some m) (seq 0 D) maxs).
-  { apply rmapM_ok in Emax. eapply Forall2_weaken; [|exact Emax]. intros d m Hd. cbn beta in Hd.
-    destruct (lmax R_ops _); cbn [need] in Hd; [now injection Hd as -> | discriminate]. }
-  split; [exact Hmin|]. split; [exact Hmax|].
+Proof. intros Hwf H. destruct (focus_ok_observed D b b' dims H) as [HD [m0' Hm0]].
+  pose proof (lmin_some_not_all_missing D _ 0%nat m0' (all3_all_points _ _ Hwf) ltac:(lia) Hm0) as Hnm.
+  destruct (axis_values D b Hwf Hnm) as [mins [maxs [Hmin [Hmax [Emin Emax]]]]].
+  rewrite (focus_as_values D b mins maxs Emin Emax) in H. cbn zeta in H.
+  exists mins, maxs. split; [exact Hmin|]. split; [exact Hmax|].
   pose proof (Forall2_length' _ _ _ Hmin) as Lmin. pose proof (Forall2_length' _ _ _ Hmax) as Lmax. rewrite seq_length in Lmin, Lmax.
   destruct mins as [|m0 [|m1 mins]]; destruct maxs as [|x0 [|x1 maxs]]; cbn [zipw length] in *; try discriminate; try lia.
   rops.
@@ -92,7 +134,7 @@ Lemma focus_is_translation D (b b' : rframes) dims :
   exists mins : list R, length mins = D /\
     (forall d m, nth_error mins d = Some m -> is_min m (obs_axis R_ops d (all_points R_ops b))) /\
     rel3 (focus_point_spec mins) b b' /\ wf_body D b'.
-Proof. intros Hwf H. destruct (focus_unfold D b b' dims H) as [mins [maxs [Hmin [_ [Hb' _]]]]].
+Proof. intros Hwf H. destruct (focus_unfold D b b' dims Hwf H) as [mins [maxs [Hmin [_ [Hb' _]]]]].
   pose proof (Forall2_length' _ _ _ Hmin) as Lmin. rewrite seq_length in Lmin. symmetry in Lmin. rops.
   exists mins. split; [exact Lmin|]. split.
   { intros d m Hd. assert (Hlt : (d < D)%nat) by (rewrite <- Lmin; apply nth_error_Some; congruence).
@@ -114,7 +156,7 @@ Proof. intros Hwf H. destruct (focus_unfold D b b' dims H) as [mins [maxs [Hmin 
 Lemma focus_min_zero D (b b' : rframes) dims :
   wf_body D b -> focus R_ops R_ceil D b = Ok (b', dims) ->
   forall d, (d < D)%nat -> is_min 0 (obs_axis R_ops d (all_points R_ops b')).
-Proof. intros Hwf H d Hd. destruct (focus_unfold D b b' dims H) as [mins [maxs [Hmin [_ [Hb' _]]]]].
+Proof. intros Hwf H d Hd. destruct (focus_unfold D b b' dims Hwf H) as [mins [maxs [Hmin [_ [Hb' _]]]]].
   destruct (Forall2_nth_error_l _ _ _ d _ Hmin (nth_error_seq 0 D d Hd)) as [m [Hm Hlm]]. cbn [Nat.add] in Hlm.
   apply lmin_spec in Hlm. subst b'. destruct (existsb nonzero mins) eqn:E.
   - rewrite all_points_map3. rewrite (obs_axis_shift D mins _ d m (all3_all_points _ _ Hwf) Hm). now apply is_min_shift.
@@ -126,29 +168,24 @@ Lemma focus_dims D (b b' : rframes) dims :
   forall d, (d < D)%nat -> (d < 3)%nat ->
     exists mn mx, is_min mn (obs_axis R_ops d (all_points R_ops b)) /\ is_max mx (obs_axis R_ops d (all_points R_ops b)) /\
                   is_ceil (dim_of dims d) (mx - mn).
-Proof. intros Hwf H. destruct (focus_unfold D b b' dims H) as [mins [maxs [Hmin [Hmax [_ [HD [Hdepth Hceil]]]]]]].
+Proof. intros Hwf H. destruct (focus_unfold D b b' dims Hwf H) as [mins [maxs [Hmin [Hmax [_ [HD [Hdepth Hceil]]]]]]].
   split; [exact HD|]. split; [exact Hdepth|]. intros d Hd Hd3.
   destruct (Forall2_nth_error_l _ _ _ d _ Hmin (nth_error_seq 0 D d Hd)) as [mn [Hmn Hlmn]].
   destruct (Forall2_nth_error_l _ _ _ d _ Hmax (nth_error_seq 0 D d Hd)) as [mx [Hmx Hlmx]].
   exists mn, mx. split; [now apply lmin_spec|]. split; [now apply lmax_spec|]. now apply Hceil. Qed.
 
-(* focus succeeds exactly when it has something to measure: at least width and height, and an observed value on every axis *)
-Lemma focus_defined D (b : rframes) : (2 <= D)%nat -> (forall d, (d < D)%nat -> obs_axis R_ops d (all_points R_ops b) <> []) ->
+(* focus succeeds whenever there is something to measure: width and height exist and some point is observed *)
+Lemma focus_defined D (b : rframes) : (2 <= D)%nat -> wf_body D b -> all_missing (all_points R_ops b) = false ->
   exists r, focus R_ops R_ceil D b = Ok r.
-Proof. intros HD Hobs. unfold focus.
-  assert (Hmins : exists mins, rmapM (fun d => need (lmin R_ops (obs_axis R_ops d (all_points R_ops b))) Type_) (seq 0 D) = Ok mins /\ length mins = D).
-  { assert (G : forall s n, (s + n <= D)%nat -> exists mins, rmapM (fun d => need (lmin R_ops (obs_axis R_ops d (all_points R_ops b))) Type_) (seq s n) = Ok mins /\ length mins = n).
-    { intros s n; revert s; induction n as [|n IH]; intros s Hs; cbn [seq rmapM]; [eexists; split; reflexivity|].
-      destruct (lmin R_ops (obs_axis R_ops s (all_points R_ops b))) as [m|] eqn:E; [|apply lmin_none in E; exfalso; apply (Hobs s); [lia | exact E]].
-      cbn [need rbind]. destruct (IH (S s)) as [mins [-> Hl]]; [lia|]. cbn [rbind]. eexists; split; [reflexivity|]. cbn [length]. now rewrite Hl. }
-    apply (G 0%nat D). lia. }
-  assert (Hmaxs : exists maxs, rmapM (fun d => need (lmax R_ops (obs_axis R_ops d (all_points R_ops b))) Type_) (seq 0 D) = Ok maxs /\ length maxs = D).
-  { assert (G : forall s n, (s + n <= D)%nat -> exists maxs, rmapM (fun d => need (lmax R_ops (obs_axis R_ops d (all_points R_ops b))) Type_) (seq s n) = Ok maxs /\ length maxs = n).
-    { intros s n; revert s; induction n as [|n IH]; intros s Hs; cbn [seq rmapM]; [eexists; split; reflexivity|].
-      destruct (lmax R_ops (obs_axis R_ops s (all_points R_ops b))) as [m|] eqn:E; [|apply lmax_none in E; exfalso; apply (Hobs s); [lia | exact E]].
-      cbn [need rbind]. destruct (IH (S s)) as [maxs [-> Hl]]; [lia|]. cbn [rbind]. eexists; split; [reflexivity|]. cbn [length]. now rewrite Hl. }
-    apply (G 0%nat D). lia. }
-  destruct Hmins as [mins [-> Lmin]]. destruct Hmaxs as [maxs [-> Lmax]]. cbn [rbind].
+Proof. intros HD Hwf Hm. destruct (axis_values D b Hwf Hm) as [mins [maxs [Hmin [Hmax [Emin Emax]]]]].
+  rewrite (focus_as_values D b mins maxs Emin Emax). cbn zeta.
+  pose proof (Forall2_length' _ _ _ Hmin) as Lmin. pose proof (Forall2_length' _ _ _ Hmax) as Lmax. rewrite seq_length in Lmin, Lmax.
   destruct mins as [|m0 [|m1 mins]]; destruct maxs as [|x0 [|x1 maxs]]; cbn [length] in *; try lia.
-  cbn [zipw]. unfold need. cbn [R_ceil rbind].
-  destruct mins as [|m2 mins]; destruct maxs as [|x2 maxs]; cbn [zipw length rbind] in *; try lia; eexists; reflexivity. Qed.
+  cbn [zipw]. unfold R_ceil at 1 2. cbn [need rbind].
+  destruct mins as [|m2 mins]; destruct maxs as [|x2 maxs]; cbn [zipw length need rbind R_ceil] in *; try lia; eexists; reflexivity. Qed.
+(* ... and fails loudly otherwise *)
+Lemma focus_nothing_observed D (b : rframes) : wf_body D b -> all_missing (all_points R_ops b) = true ->
+  exists e, focus R_ops R_ceil D b = Err e.
+Proof. intros Hwf Hm. destruct (focus R_ops R_ceil D b) as [[b' dims]|e] eqn:E; [|eauto]. exfalso.
+  destruct (focus_ok_observed D b b' dims E) as [HD [m Hm0]].
+  pose proof (lmin_some_not_all_missing D _ 0%nat m (all3_all_points _ _ Hwf) ltac:(lia) Hm0). congruence. Qed.
